@@ -160,6 +160,7 @@ func runNet(s *vsimcore.Sim, p vsimcore.Params) vsimcore.RunInfo {
 		info.SimNs = int64(s.SimTime())
 		fill()
 		s.Checkpoint(info)
+		s.Freeze()
 		w.shutdown()
 	})
 	fill()
